@@ -332,6 +332,7 @@ class NP:
     def cos(self, x): return _elementwise(theory.cos, _np.cos)(x)
     def sin(self, x): return _elementwise(theory.sin, _np.sin)(x)
     def arccos(self, x): return _elementwise(theory.arccos, _np.arccos)(x)
+    def tan(self, x): return _elementwise(theory.tan, _np.tan)(x)
     def exp(self, x): return _elementwise(theory.exp, _np.exp)(x)
     def abs(self, x): return _elementwise(abs, _np.abs)(x)
     absolute = abs
@@ -350,6 +351,8 @@ class NP:
             return out
         return _np.arctan2(y, x)
     def where(self, c, *ab):
+        if not ab and hasattr(c, "where"):
+            return c.where()
         if not ab:
             if isinstance(c, _np.ndarray) and c.dtype == object and any(isinstance(x, SB) for x in c.flat):
                 return MaskIndex(c) if c.ndim != 1 else (MaskIndex(c),)
@@ -397,6 +400,8 @@ class NP:
             return out
         return fn(a, b)
     def sum(self, x, axis=None, **k):
+        if hasattr(x, "__sym_count__"):
+            return x.__sym_count__()
         if isinstance(x, RowArr):
             if axis == 1:
                 r = x.vals[0]
